@@ -20,7 +20,7 @@ const (
 
 type Type struct {
 	T    byte
-	Bin  bool // STRING declared as "binary"
+	Bin  bool   // STRING declared as "binary"
 	TD   string // when set, the type is spelled through `typedef <base> <TD>`
 	Elem *Type
 	Key  *Type
